@@ -213,3 +213,50 @@ Proof. split; reflexivity. Qed.
 Lemma def_sig_full_statement_refuted :
   ~ (forall ps, map norm_sparam (sig_from_def ps) = map norm_sparam (sig_from_runtime ps)).
 Proof. intros H. specialize (H ex_private). vm_compute in H. discriminate. Qed.
+
+(* ------------------------------------------------------------------------ *)
+(* calls: the binder of C05 applied to both signatures *)
+Require Import PV.Annot.Calls.
+Require PV.Binder.Kind PV.Binder.Sig PV.Binder.Bind.
+
+Lemma type_of_param_norm : forall l1 l2 n,
+  map norm_sparam l1 = map norm_sparam l2 -> type_of_param l1 n = type_of_param l2 n.
+Proof.
+  induction l1 as [|a l1 IH]; intros [|b l2] n H; cbn in H; try discriminate; [reflexivity|].
+  inversion H as [[Hab Hr]]. cbn.
+  assert (Hn : s_name a = s_name b).
+  { assert (E : s_name (norm_sparam a) = s_name (norm_sparam b)) by now rewrite Hab.
+    unfold norm_sparam in E. destruct (s_type a), (s_type b); exact E. }
+  rewrite Hn, Hab. destruct (N.eqb (s_name b) n); [reflexivity|]. now apply IH.
+Qed.
+
+Lemma to_binder_sig_norm : forall l, to_binder_sig (map norm_sparam l) = to_binder_sig l.
+Proof.
+  intros l. unfold to_binder_sig. rewrite map_map. apply map_ext. intros a.
+  unfold norm_sparam. destruct (s_type a); reflexivity.
+Qed.
+
+Theorem call_judged_identically_partial : forall ps raw,
+  forallb param_ok ps = true ->
+  call_in_defining_scope ps raw = call_from_importer ps raw.
+Proof.
+  intros ps raw H. unfold call_in_defining_scope, call_from_importer, judge.
+  destruct (def_sig_eq_runtime_sig_partial ps None H) as [E _].
+  rewrite <- (to_binder_sig_norm (sig_from_def ps)), <- (to_binder_sig_norm (sig_from_runtime ps)), E.
+  destruct (Bind.preprocess raw) as [a|]; [|reflexivity].
+  destruct (Bind.bind _ a) as [b|]; [|reflexivity].
+  f_equal. apply map_ext. intros x. f_equal. now apply type_of_param_norm.
+Qed.
+
+(* def f(a, __p): f(a=1, __p=2) binds in the defining scope and is rejected from an importer *)
+Lemma call_private_refuted :
+  call_in_defining_scope ex_private [Bind.RKw 1; Bind.RKw 2] <> None /\
+  call_from_importer ex_private [Bind.RKw 1; Bind.RKw 2] = None /\
+  call_in_defining_scope ex_private [Bind.RPos; Bind.RPos] = call_from_importer ex_private [Bind.RPos; Bind.RPos].
+Proof. vm_compute. repeat split. discriminate. Qed.
+
+Lemma call_example :
+  call_from_importer ex_sig [Bind.RPos; Bind.RPos; Bind.RPos; Bind.RKw 4; Bind.RKw 9] <> None /\
+  call_from_importer ex_sig [Bind.RKw 1] = None /\
+  call_from_importer ex_sig [] = None.
+Proof. vm_compute. repeat split. discriminate. Qed.
